@@ -12,6 +12,7 @@ import (
 	"os"
 	"path/filepath"
 	"runtime/debug"
+	"runtime/pprof"
 	"sort"
 	"strconv"
 	"strings"
@@ -138,6 +139,14 @@ func main() {
 			dumpLexTable(ctx)
 			return
 		}
+		if *describe == "foldscale" {
+			dumpFoldScale(ctx)
+			return
+		}
+		if *describe == "constindex" {
+			dumpConstIndex(ctx)
+			return
+		}
 		if *describe == "narrow" {
 			dumpNarrow(ctx)
 			return
@@ -188,6 +197,16 @@ func main() {
 	}
 
 	code := 0
+	// the loaded program is large and long-lived: collect less often (peak memory stays below 4 GB)
+	if os.Getenv("GOGC") == "" {
+		debug.SetGCPercent(400)
+	}
+	if pf := os.Getenv("CRDCHECK_CPUPROFILE"); pf != "" {
+		if f, err := os.Create(pf); err == nil {
+			pprof.StartCPUProfile(f)
+			defer pprof.StopCPUProfile()
+		}
+	}
 	func() {
 		defer func() {
 			if r := recover(); r != nil {
@@ -218,6 +237,17 @@ func main() {
 					delete(need, r)
 				}
 			}
+		}
+		ctx.wants = func(rule, key string) bool {
+			for _, p := range props {
+				pd := properties[p]
+				for _, r := range pd.Rules {
+					if r == rule && pd.inScope(rule, key) {
+						return true
+					}
+				}
+			}
+			return false
 		}
 		for _, name := range registryOrder {
 			if !need[name] {
@@ -250,6 +280,7 @@ func main() {
 			}
 		}
 	}()
+	pprof.StopCPUProfile()
 	os.Exit(code)
 }
 
